@@ -12,7 +12,10 @@ EXTENDS UpdogCore
 CONSTANTS Paths,               \* file names
           DropLastBitmap,      \* negative control: big writer forgets the final bitmap
           KeepGroupByScratch,  \* negative control: group-by scratch survives in the Query object (code as found)
-          ClobberOnFlush       \* negative control: Flush overwrites an existing file
+          ClobberOnFlush,      \* negative control: Flush overwrites an existing file
+          BigByFold            \* TRUE: the big writer's file is computed by the sorted-stream fold (model checking);
+                               \* FALSE: by FileOf directly (trace validation of large datasets: the fold is quadratic;
+                               \* MC_Core / MC_Lib establish BigFileOf = FileOf)
 
 VARIABLES w,      \* w[p]     : writer targeting path p: [kind, rows, done]
           files,  \* files[p] : [kind : "absent" | "index" | "other", f : file contents, ver : content version]
@@ -40,7 +43,7 @@ Reset == /\ w' = [p \in Paths |-> NoWriter]
          /\ qobj' = <<>>
          /\ resp' = R("init")
 
-WriterFile(wr) == IF wr.kind = "big" THEN BigFileOf(wr.rows, DropLastBitmap) ELSE FileOf(wr.rows)
+WriterFile(wr) == IF wr.kind = "big" /\ BigByFold THEN BigFileOf(wr.rows, DropLastBitmap) ELSE FileOf(wr.rows)
 
 (* A pre-existing file that is not an index (arbitrary bytes, empty, read-only ...). *)
 PlantOther(p) ==
